@@ -228,30 +228,60 @@ Proof. repeat split. Qed.
 Example freal_star_ge1_ex : (1 <=? 0x1.0000000000001p+0) = true /\ (1 <=? 0x1.fffffffffffffp+1023) = true.
 Proof. split; reflexivity. Qed.
 
-Theorem fvit_star_nonneg x : (0 <=? x) = true -> fvit_star x = infinity.
+Theorem fvit_star_pos x : (0 <? x) = true -> fvit_star x = infinity.
 Proof. intros H. unfold fvit_star. rewrite H. reflexivity. Qed.
-Theorem fvit_star_neg x : (0 <=? x) = false -> fvit_star x = 0.
+Theorem fvit_star_nonpos x : (0 <? x) = false -> fvit_star x = 0.
 Proof. intros H. unfold fvit_star. rewrite H. reflexivity. Qed.
 Theorem fvit_star_values :
   fvit_star neg_infinity = 0 /\ fvit_star (-1) = 0 /\ fvit_star (-0x1p-1074) = 0 /\
+  fvit_star 0 = 0 /\ fvit_star neg_zero = 0 /\
   fvit_star 0x1p-1074 = infinity /\ fvit_star infinity = infinity.
 Proof. repeat split. Qed.
-(** F2 at the float level: at x = 0. (and -0.) the code returns +inf, although y = 0. already
-    satisfies y = max(0, x + y); so the returned value is a solution but not the least one *)
-Theorem fvit_star_zero_refuted :
-  fvit_star 0 = infinity /\ fvit_star neg_zero = infinity /\
-  fvit_add 0 (fvit_mul 0 0) = 0 /\ (0 <? fvit_star 0) = true.
+Example fvit_star_ex : (0 <? 0x1p-1074) = true /\ (0 <? -3) = false /\ (0 <? 0) = false.
 Proof. repeat split. Qed.
-(** away from zero the code's star is the repaired star *)
-Theorem fvit_star_guarded x : is_zero x = false -> fvit_star x = fvit_star_fixed x.
+
+(** star x solves y = max(0, x + y) on floats, exactly, for every non-NaN x *)
+Theorem fvit_star_solution x : is_nan x = false -> fvit_add 0 (fvit_mul x (fvit_star x)) = fvit_star x.
 Proof.
-  unfold fvit_star, fvit_star_fixed, is_zero. rewrite FloatAxioms.leb_spec, FloatAxioms.ltb_spec, FloatAxioms.eqb_spec.
+  intros Hn. rewrite is_nan_spec in Hn.
+  destruct (Prim2SF x) as [s|s| |s m e] eqn:E; try discriminate.
+  - destruct s; [apply SF_negzero in E | apply SF_poszero in E]; subst x; reflexivity.
+  - destruct s; [apply SF_neginf in E | apply SF_posinf in E]; subst x; reflexivity.
+  - destruct s.
+    + (* negative finite: star = 0, x + 0 = x, max(0, x) = 0 *)
+      assert (Hlt : (0 <? x) = false).
+      { rewrite FloatAxioms.ltb_spec, E. reflexivity. }
+      unfold fvit_star. rewrite Hlt.
+      assert (Hz : x <> neg_zero).
+      { intros C. subst x. vm_compute in E. discriminate. }
+      unfold fvit_mul. rewrite (fadd_zero_r x Hz), f_nan_to_num_spec, E.
+      unfold fvit_add, f_max. change (is_nan 0) with false. cbn iota.
+      rewrite is_nan_spec, E, Hlt. reflexivity.
+    + (* positive finite: star = inf *)
+      assert (Hlt : (0 <? x) = true).
+      { rewrite FloatAxioms.ltb_spec, E. reflexivity. }
+      unfold fvit_star. rewrite Hlt.
+      assert (P : Prim2SF (x + infinity) = S754_infinity false).
+      { rewrite add_spec, E. reflexivity. }
+      apply SF_posinf in P. unfold fvit_mul. rewrite P. reflexivity.
+Qed.
+Example fvit_star_solution_ex : is_nan (-0x1.8p+3) = false /\ is_nan 0x1p-1074 = false.
+Proof. split; reflexivity. Qed.
+
+(** F2 (repaired in /repo by d2ec7af) at the float level: the OLD formula returns +inf at 0.
+    (and -0.), although y = 0. already satisfies y = max(0, x + y); so the value returned was a
+    solution but not the least one.  Away from zero old and new formula agree. *)
+Theorem fvit_star_old_zero_refuted :
+  fvit_star_old 0 = infinity /\ fvit_star_old neg_zero = infinity /\
+  fvit_add 0 (fvit_mul 0 0) = 0 /\ (0 <? fvit_star_old 0) = true.
+Proof. repeat split. Qed.
+Theorem fvit_star_old_guarded x : is_zero x = false -> fvit_star_old x = fvit_star x.
+Proof.
+  unfold fvit_star, fvit_star_old, is_zero. rewrite FloatAxioms.leb_spec, FloatAxioms.ltb_spec, FloatAxioms.eqb_spec.
   change (Prim2SF 0) with (S754_zero false). change (Prim2SF zero) with (S754_zero false).
   destruct (Prim2SF x) as [s|s| |s m e]; try destruct s; cbn; intros H; try reflexivity; discriminate.
 Qed.
-Theorem fvit_star_fixed_zero : fvit_star_fixed 0 = 0 /\ fvit_star_fixed neg_zero = 0.
-Proof. split; reflexivity. Qed.
-Example fvit_star_guarded_ex : is_zero 0x1p-1074 = false /\ is_zero (-3) = false /\ is_zero infinity = false.
+Example fvit_star_old_guarded_ex : is_zero 0x1p-1074 = false /\ is_zero (-3) = false /\ is_zero infinity = false.
 Proof. repeat split. Qed.
 
 (* ------------------------------------------------------------------------- *)
